@@ -131,6 +131,44 @@ def g_reuse_guard():
     return run
 
 
+def g_reuse_after_query():
+    """a normal call at T1, then a query-only call (update=False) at a concrete other temperature, then a call
+    at a symbolic T3: the coefficients now remembered are those of the QUERY, so reuse is legitimate only when
+    T3 is within the tolerance of the query's temperature (concrete T1 / Tq keep the first two calls on one path)"""
+    def run(E):
+        th = _fx['th']
+        ms = tmo.MultiStream(None, thermo=th, phases='lL')
+        npres = E.pick([2, 3], 'n-chemicals')
+        f1 = load(E, ms, FEEDS[npres][0])
+        probe = {}
+        L = make_lle(E, ms, probe=probe)
+        T1 = E.pick([300., 340.], 'T1')
+        Tq = E.pick([320., 300.], 'Tq')
+        if Tq == T1:
+            raise core.PathAbort('query at the same temperature')
+        try:
+            L(T=T1)
+            load(E, ms, f1[:npres])
+            L(T=Tq, update=False)
+        except (ZeroDivisionError, FloatingPointError):
+            raise core.PathAbort('degenerate split')
+        probe['second-call'] = True
+        T3 = E.real('T3', lo=285, hi=355, nice=(299.9995, 300.0005))
+        try:
+            L(T=T3)
+        except _Decided as d:
+            reused = d.reused
+        else:
+            raise core.PathAbort('third call did not reach the solver')
+        sig = f'n={npres}/T1={T1}/Tq={Tq}'
+        if not reused:
+            E.prove('fresh-solve', True, sig=sig)
+            return
+        tolT = L.temperature_cache_tolerance * (1 + 1e-6)
+        E.prove('coefficients-of-a-query-only-call-reused-only-near-its-temperature', E.all([E.le(T3 - Tq, tolT), E.ge(T3 - Tq, -tolT)]), sig=sig)
+    return run
+
+
 def g_top_chemical():
     def run(E):
         th = _fx['th']
@@ -216,6 +254,7 @@ BUDGET_S = {'quick': 400, 'thorough': 2400}
 def groups(tier):
     return {
         'lle-reuse-guard': (g_reuse_guard(), dict(qtimeout_ms=20000, max_paths=400000)),
+        'lle-reuse-after-query': (g_reuse_after_query(), dict(qtimeout_ms=20000, max_paths=400000)),
         'lle-top-chemical': (g_top_chemical(), dict(qtimeout_ms=30000, max_paths=400000)),
         'sle-rules': (g_sle_rules(), dict(qtimeout_ms=20000, max_paths=400000)),
     }
